@@ -27,6 +27,31 @@ class Obligation:
     detail: dict = field(default_factory=dict)
 
 
+def _functions_of(obligations):
+    """the functions / data files the rule instances are about (`module:qualname` prefix of the instance keys)"""
+    out = set()
+    for o in obligations:
+        parts = str(o.key).split(":")
+        if len(parts) >= 2 and parts[0] and parts[1]:
+            out.add(f"{parts[0]}:{parts[1]}")
+    return out
+
+
+def _table_stats(repo):
+    """decision tables extracted during this run: function -> rows (paths) at the deepest unrolling used"""
+    try:
+        from . import review
+
+        out = {}
+        for key, t in review._cache.items():
+            if repo is None or key[0] != repo.root or isinstance(t, Exception):
+                continue
+            out[key[1]] = max(out.get(key[1], 0), len(t))
+        return {"functions": len(out), "rows": sum(out.values()), "largest": dict(sorted(out.items(), key=lambda kv: -kv[1])[:12])}
+    except Exception:
+        return {}
+
+
 class Ctx:
     """Handed to every rule function."""
 
@@ -290,7 +315,8 @@ def run_property(prop: str, tier: str, root=None, replay=None, quiet=False, writ
             "rule": "one evaluation per rule instance keyed module:function:construct; distinct = distinct (rule,key) pairs; every instance is a real construct of the analysed tree, none is synthetic",
             "samples": samples or [{"note": "no obligations produced"}],
             "rules": rule_stats,
-            "analysed": sorted(set(analysed))[:400],
+            "analysed": sorted(set(analysed) | _functions_of(obligations))[:600],
+            "decision_tables": _table_stats(repo),
             "files_sha256": (repo.consulted if repo else {}),
             "known_findings": [f"{o.rule} {o.key}" for o, _ in known_hits],
             "new_violations": [f"{o.rule} {o.key} @ {o.loc}: {o.msg}" for o in new_viols],
